@@ -328,9 +328,8 @@ def Entry.persisted (e : Entry) : Option Entry :=
 
 /-- a fabric written to and read back from its TLV form (`Fabric: ToTLV, FromTLV`) -/
 def XFabric.persisted (f : XFabric) : Option XFabric :=
-  match f.acl.mapM Entry.persisted with
-  | some acl => some { f with acl := acl }
-  | none => none
+  if f.acl.all (fun e => e.persisted.isSome) then some { f with acl := f.acl.filterMap Entry.persisted }
+  else none
 
 /-- the key-value store restricted to the fabric keys: key (`FABRIC_KEYS_START + idx`) ↦ fabric -/
 abbrev FabStore := List (Nat × XFabric)
@@ -437,12 +436,16 @@ def Cfg.loadPersist (c : Cfg) : Cfg × Res :=
   let r := loadLoop c.store (List.range' 1 255) []
   ({ c with fabrics := r.1 }, r.2)
 
+/-- `if fabrics.get(i).is_some() { fabrics.remove(i)? }` -/
+def dropFabric (fabrics : List XFabric) (i : Nat) : List XFabric :=
+  match xGet fabrics i with
+  | some _ => fabrics.filter (fun f => f.fabIdx != i)
+  | none => fabrics
+
 /-- the fabric part of the fail-safe roll-back (`failsafe.rs`): `if fabrics.get(i).is_some()
 { fabrics.remove(i)? }; fabrics.add_load(i, kv)?` -/
 def Cfg.reload (c : Cfg) (i : Nat) : Cfg × Res :=
-  let fabrics1 := match xGet c.fabrics i with
-    | some _ => c.fabrics.filter (fun f => f.fabIdx != i)
-    | none => c.fabrics
+  let fabrics1 := dropFabric c.fabrics i
   match addLoad fabrics1 c.store i with
   | .error e => ({ c with fabrics := fabrics1 }, .err e)
   | .ok fs => ({ c with fabrics := fs }, .ok)
